@@ -238,8 +238,11 @@ def check_submit_wrappers(ck: Checker, rid: str):
             if isinstance(n, (ast.For, ast.AsyncFor)) and (n.iter is c or (isinstance(n.iter, ast.Name) and n.iter.id in names)) and isinstance(n.target, ast.Name):
                 v_ = n.target.id
                 ys = [y for b in n.body for y in ast.walk(b) if isinstance(y, ast.Yield)]
-                if len(ys) == 1 and is_name(ys[0].value, v_) and len(n.body) == 1:
-                    ok = True
+                top = [b for b in n.body if isinstance(b, ast.Expr) and b.value is ys[0]] if len(ys) == 1 else []
+                others = [b for b in n.body if not top or b is not top[0]]
+                quiet = not any(isinstance(k, (ast.Break, ast.Continue, ast.Return, ast.Raise, ast.YieldFrom)) or (isinstance(k, ast.Name) and k.id == v_ and isinstance(k.ctx, (ast.Store, ast.Del))) for b in others for k in ast.walk(b))
+                if len(ys) == 1 and is_name(ys[0].value, v_) and top and quiet:
+                    ok = True  # the one yield is a statement of the loop body itself (reached in every pass); nothing else in the body leaves the pass or re-binds the element
         ck.ob(rid, f, c, ok, f'every output of {callee} is yielded on, unchanged' if ok else f'the stream built by `{callee}(…)` is not yielded from (or its outputs are altered / filtered on the way): parmap would produce nothing, or not one output per input')
 
 
